@@ -2020,6 +2020,13 @@ pub fn gen_configure(rng: &mut Rng, tid: u8) -> Op {
         _ => rng.below(60_001),
     };
     let (rto_us, last_us) = if rng.chance(1, 4) { (*rng.pick(&[1u16, 499, 500, 501, 999, 250, 750]), *rng.pick(&[0u16, 1, 500, 999])) } else { (0, 0) };
+    // one configuration in twelve has more retransmissions than the property's 0..=8 (the statement
+    // itself has no such bound): 9..=24 of them, with a small initial interval so that the last ones
+    // stay within days
+    if rng.chance(1, 12) {
+        let n = *rng.pick(&[9u32, 12, 15, 16, 17, 18, 20, 24]);
+        return Op::Configure { tid, rto: 1 + rng.below(8), n, last, rto_us: 0, last_us };
+    }
     Op::Configure { tid, rto, n: rng.below(9) as u32, last, rto_us, last_us }
 }
 
